@@ -198,6 +198,26 @@ def r2_rewrite_loops(ctx):
             else:
                 ctx.ok(f, 'the only filters are on the reference itself%s' % (
                     ' and the moved model names' if extra_ok else ''), st)
+            # the renamed clone must already be part of the project
+            # signature when the loop runs (clone() deep-copies the fields,
+            # so self-references live in the clone, not in the old object)
+            if q == 'RenameModel.simulate':
+                g = ctx.cfg(f)
+                adds = [n for n in g.nodes for c in n.calls()
+                        if call_name(c) == 'add_model_sig']
+                head = next((h for h in g.nodes if h.kind == 'for' and
+                             h.ast is nest[-3]), None)
+                if adds and head is not None and \
+                        any(g.dominates(a, head) for a in adds):
+                    ctx.ok(f, 'the renamed clone is added to the app '
+                           'signature before references are rewritten', st)
+                else:
+                    ctx.finding(f, st, 'references are rewritten before the '
+                                'renamed clone is put into the signature: '
+                                'the loop updates the old signature object '
+                                'that is about to be discarded, so relations '
+                                'of the renamed model to itself keep the old '
+                                'name', key='rewrite-before-swap')
             # the comparison uses the old label / old dotted name
             txt = ' '.join(unparse(c) for c in conds)
             if 'old_' in txt:
